@@ -3,7 +3,10 @@
 //! Every case builds one real `des` simulation through the public builder API and runs it.
 //! Script lines (a node is always named by its full path, so lines survive deletion; `~` is the
 //! empty string):
-//!   node <path> s=<stages> w=<wake>   `sim.node(path, Scripted{..})`; the module declares
+//!   node <path> s=<stages> w=<wake> [f=<k>]
+//!                                     (`f=k`, k > 0: the module's `at_sim_end` returns `Err(RuntimeError)` carrying k errors
+//!                                     named `<path>#0 … <path>#k-1`)
+//!                                     `sim.node(path, Scripted{..})`; the module declares
 //!                                     `num_sim_start_stages() = stages` and, if `wake > 0`, schedules a
 //!                                     self-message `wake*(stage+1)` ns ahead in every `at_sim_start(stage)`
 //!   block <path> s=<stages> rels=<r1>,<r2>,…
@@ -22,6 +25,8 @@
 //!            S:<path>:<stage>:<ns>:<L>     at_sim_start(stage)
 //!            M:<path>:<ns>:<L>             handle_message
 //!            E:<path>:<ns>:<L>             at_sim_end
+//!            X:<path>#<i>                  (after everything else) the errors carried by the `Err` that `run()` returned,
+//!                                          in the order `RuntimeError` holds them
 //!            D:<path>                      the module's state is dropped (after `run` returned and its result,
 //!                                          the `Sim`, is dropped)
 //!            <L> = <len>:<name>:<parent>:<kids> are the lookups made inside EVERY callback:
@@ -164,6 +169,12 @@ fn all_orders(t: &[TNode], cap: usize) -> Vec<Vec<usize>> {
 fn emit_case(out: &mut String, r: &mut Rng, id: &str, t: &[TNode], order: &[usize], stages: &[u64], wakes: &[u64], noise: bool) {
     // heavy noise: a rejected or probing line before almost every accepted one
     let span = if r.chance(1, 4) { 8 } else { 14 };
+    // failing tear-down callbacks: none / a few / many modules return Err from at_sim_end
+    let fail_den = match r.below(4) {
+        0 | 1 => 0,
+        2 => 4,
+        _ => 2,
+    };
     writeln!(out, "case {id} n={}", t.len()).unwrap();
     let mut emitted: Vec<usize> = Vec::new();
     for (k, &i) in order.iter().enumerate() {
@@ -215,7 +226,11 @@ fn emit_case(out: &mut String, r: &mut Rng, id: &str, t: &[TNode], order: &[usiz
                 _ => {}
             }
         }
-        writeln!(out, "node {} s={} w={}", t[i].path, stages[i], wakes[i]).unwrap();
+        if fail_den > 0 && r.chance(1, fail_den) {
+            writeln!(out, "node {} s={} w={} f={}", t[i].path, stages[i], wakes[i], r.range(1, 2)).unwrap();
+        } else {
+            writeln!(out, "node {} s={} w={}", t[i].path, stages[i], wakes[i]).unwrap();
+        }
         emitted.push(i);
     }
     if noise && r.chance(1, 4) && !emitted.is_empty() {
@@ -292,6 +307,8 @@ type Log = Arc<Mutex<Vec<String>>>;
 struct Scripted {
     stages: usize,
     wake: u64,
+    /// number of errors `at_sim_end` reports (0: it returns Ok)
+    fail: u64,
     log: Log,
     pool: Arc<Vec<String>>,
     /// path seen in the last callback (for the drop record)
@@ -316,6 +333,15 @@ fn lookups(pool: &[String]) -> (String, String) {
     let kids = if kids.is_empty() { "-".to_string() } else { kids.join(",") };
     (tok(p.as_str()), format!("{}:{}:{}:{}", p.len(), tok(&ctx.name()), parent, kids))
 }
+
+#[derive(Debug)]
+struct EndError(String);
+impl std::fmt::Display for EndError {
+    fn fmt(&self, f: &mut std::fmt::Formatter<'_>) -> std::fmt::Result {
+        write!(f, "{}", self.0)
+    }
+}
+impl std::error::Error for EndError {}
 
 impl Drop for Scripted {
     fn drop(&mut self) {
@@ -349,7 +375,10 @@ impl Module for Scripted {
     fn at_sim_end(&mut self) -> Result<(), RuntimeError> {
         let (p, l) = lookups(&self.pool);
         self.log.lock().unwrap().push(format!("E:{}:{}:{}", p, now_ns(), l));
-        self.seen = Some(p);
+        self.seen = Some(p.clone());
+        if self.fail > 0 {
+            return Err(RuntimeError::new((0..self.fail).map(|i| EndError(format!("{p}#{i}"))).collect()));
+        }
         Ok(())
     }
 }
@@ -374,7 +403,7 @@ struct Block {
 impl ModuleBlock for Block {
     type Ret = ();
     fn build<A>(self, mut sim: SimBuilderScoped<'_, A>) {
-        let mk = |b: &Block| Scripted { stages: b.stages, wake: 0, log: b.log.clone(), pool: b.pool.clone(), seen: None };
+        let mk = |b: &Block| Scripted { stages: b.stages, wake: 0, fail: 0, log: b.log.clone(), pool: b.pool.clone(), seen: None };
         let m = mk(&self);
         let r = guarded(|| sim.root(m));
         self.answers.lock().unwrap().push(classify(r));
@@ -474,10 +503,11 @@ pub fn exec(input: &str) -> String {
                     let hdr = rest.join(" ");
                     let stages = hval(&hdr, "s").and_then(|v| v.parse().ok()).unwrap_or(1usize);
                     let wake = hval(&hdr, "w").and_then(|v| v.parse().ok()).unwrap_or(0u64);
+                    let fail = hval(&hdr, "f").and_then(|v| v.parse().ok()).unwrap_or(0u64);
                     match sim.as_mut() {
                         None => "late".to_string(),
                         Some(sim) => {
-                            let m = Scripted { stages, wake, log: log.clone(), pool: pool.clone(), seen: None };
+                            let m = Scripted { stages, wake, fail, log: log.clone(), pool: pool.clone(), seen: None };
                             let p = untok(path).to_string();
                             classify(guarded(|| sim.node(p.as_str(), m))).to_string()
                         }
@@ -523,17 +553,23 @@ pub fn exec(input: &str) -> String {
                         }
                         // the returned application (the `Sim` with its module tree) is dropped here:
                         // the modules' states are dropped and record `D:<path>`
+                        let mut errs: Vec<String> = Vec::new();
                         let res = match res {
                             Ok(Ok(v)) => match guarded(move || drop(v)) {
                                 Ok(()) => "ok",
                                 Err(_) => "droppanic",
                             },
-                            Ok(Err(_)) => "err",
+                            Ok(Err(e)) => {
+                                for x in e.iter() {
+                                    errs.push(format!("X:{x}"));
+                                }
+                                "err"
+                            }
                             Err(_) => "panic",
                         };
                         let entries = std::mem::take(&mut *log.lock().unwrap());
                         let mut s = format!("res={res}");
-                        for e in entries {
+                        for e in entries.into_iter().chain(errs) {
                             s.push(' ');
                             s.push_str(&e);
                         }
